@@ -227,7 +227,7 @@ class RDFWriter(object):
 
         # If available, add the documents' filename to the document node
         # so we can identify where the data came from.
-        if hasattr(doc, "origin_file_name"):
+        if getattr(doc, "origin_file_name", None):
             curr_lit = Literal(doc.origin_file_name)
             self.graph.add((curr_node, ODML_NS.hasFileName, curr_lit))
 
